@@ -15,6 +15,16 @@ C23Ok(ev) ==
   /\ (ev.ext = "valid" \/ ev.extn = "valid" => ExtensionSoundU(ev.base, ev.new))
   /\ (ev.eq = "valid" \/ ev.eqn = "valid" => EqualitySoundU(ev.base, ev.new))
   /\ (ev.eq = "valid" => ev.ext \in {"valid", "panic"} /\ ev.eqn \in {"valid", "panic"})     \* equality is the stricter setting
+\* The same for a group of pairs sharing the base schema (ev.base, ev.news = << [new, schemas_valid, eq, ext,
+\* eqn, extn] >>): the set of universe values the base accepts is computed once per group.
+PairOkWith(vo, p) ==
+  /\ p.schemas_valid = <<TRUE, TRUE>>
+  /\ (p.ext = "valid" \/ p.extn = "valid" => \A x \in vo : Valid(p.new.s, p.new.root, x))
+  /\ (p.eq = "valid" \/ p.eqn = "valid" =>
+        /\ \A x \in vo : Valid(p.new.s, p.new.root, x)
+        /\ \A x \in Slice(p.new) : Valid(p.new.s, p.new.root, x) => x \in vo)
+  /\ (p.eq = "valid" => p.ext \in {"valid", "panic"} /\ p.eqn \in {"valid", "panic"})
+C23GroupOk(ev) == \E vo \in {ValidSet(ev.base)} : \A j \in 1..Len(ev.news) : PairOkWith(vo, ev.news[j])
 \* C22: origin "encoded": the payload is the encoding of a value of the type;
 \*      origin "mutant": a damaged copy of such a payload.
 \*   ev.has_tree = FALSE when the payload does not even decode as an untyped value
@@ -27,7 +37,7 @@ C22Ok(ev) ==
   ELSE /\ ev.validator \in {"ok", "err"} /\ ev.typed \in {"ok", "err"}
        /\ (ev.typed = "ok" => valid)                       \* every payload the typed decoder accepts validates
        /\ (ev.validator = "ok") = valid                    \* the validator decides exactly Valid
-Ok(ev) == IF "eq" \in DOMAIN ev THEN C23Ok(ev) ELSE C22Ok(ev)
+Ok(ev) == IF "news" \in DOMAIN ev THEN C23GroupOk(ev) ELSE IF "eq" \in DOMAIN ev THEN C23Ok(ev) ELSE C22Ok(ev)
 TInit == l = 1
 TNext == l <= Len(Rec) /\ (IF Ok(Rec[l]) THEN TRUE ELSE PrintT(<<"BAD", l>>)) /\ l' = l + 1
 TSpec == TInit /\ [][TNext]_l
